@@ -409,6 +409,11 @@ impl Pool {
         let mut v = self.atoms();
         v.push(T::Rng(0, self.a));
         v.push(T::Rng(self.c, MAX_CHAR));
+        // all characters but one, and the two end characters on their own
+        v.push(T::Rng(1, MAX_CHAR));
+        v.push(T::Rng(0, MAX_CHAR - 1));
+        v.push(T::Chr(0));
+        v.push(T::Chr(MAX_CHAR));
         v.push(T::SigmaPlus);
         v.push(T::SmtRange(vec![self.a], vec![self.c]));
         v.push(T::SmtRange(vec![self.c], vec![self.a]));
@@ -601,6 +606,56 @@ pub fn random_term(rng: &mut Rng, d: usize, pool: &Pool) -> T {
             T::Loop(Box::new(inner), k, if rng.coin(1, 3) { None } else { Some(k + rng.range(0, 2)) })
         }
     }
+}
+
+/// Expressions that denote a single string, built in different ways (characters, strings, powers
+/// and point loops of both, concatenated): the crate tracks a `singleton` flag for them.
+pub fn literal_family(pool: &Pool) -> Vec<T> {
+    let pieces: Vec<T> = vec![
+        T::Chr(pool.a), T::Chr(pool.b), T::Str(vec![pool.a, pool.b]), T::Str(vec![pool.b, pool.a]),
+        T::Pow(b(&T::Chr(pool.a)), 2), T::Pow(b(&T::Str(vec![pool.a, pool.b])), 2), T::Pow(b(&T::Str(vec![pool.a, pool.b])), 3),
+        T::Loop(b(&T::Str(vec![pool.b, pool.a])), 2, Some(2)), T::Pow(b(&T::Chr(pool.b)), 3), T::Eps,
+    ];
+    let mut v: Vec<T> = pieces.clone();
+    for x in &pieces {
+        for y in &pieces {
+            let xy = T::Cat2(b(x), b(y));
+            v.push(xy.clone());
+            v.push(T::Alt2(b(&xy), b(&T::Pow(b(&T::Chr(pool.c)), 5))));
+            v.push(T::Not(b(&xy)));
+            for z in pieces.iter().take(4) {
+                v.push(T::CatL(vec![x.clone(), y.clone(), z.clone()]));
+            }
+        }
+    }
+    v
+}
+
+/// A random program in which a few random sub-terms occur several times (the same hash-consed
+/// object in several operand positions)
+pub fn random_shared_term(rng: &mut Rng, pool: &Pool) -> T {
+    let shared: Vec<T> = (0..rng.range(1, 3)).map(|_| random_term(rng, 2, pool)).collect();
+    fn go(rng: &mut Rng, d: usize, shared: &[T], pool: &Pool) -> T {
+        if d == 0 || rng.coin(1, 4) {
+            return if rng.coin(2, 3) { rng.pick(shared).clone() } else { random_term(rng, 0, pool) };
+        }
+        let sub = |rng: &mut Rng| Box::new(go(rng, d - 1, shared, pool));
+        match rng.below(12) {
+            0 | 1 => T::Cat2(sub(rng), sub(rng)),
+            2 | 3 => T::Alt2(sub(rng), sub(rng)),
+            4 | 5 => T::And2(sub(rng), sub(rng)),
+            6 => T::Diff1(sub(rng), sub(rng)),
+            7 => T::Not(sub(rng)),
+            8 => {
+                let i = rng.range(0, 3);
+                T::Loop(sub(rng), i, if rng.coin(1, 3) { None } else { Some(i + rng.range(0, 2)) })
+            }
+            9 => T::Pow(sub(rng), rng.range(2, 3)),
+            10 => T::AndL(vec![go(rng, d - 1, shared, pool), go(rng, d - 1, shared, pool), go(rng, d - 1, shared, pool)]),
+            _ => T::AltL(vec![go(rng, d - 1, shared, pool), go(rng, d - 1, shared, pool), go(rng, d - 1, shared, pool)]),
+        }
+    }
+    go(rng, 3, &shared, pool)
 }
 
 /// Operands that share a compound sub-term: f(R) op g(R) with f, g loops over the same body R (the
